@@ -457,8 +457,75 @@ def read_cli() -> Dict[str, Any]:
     return {"table": table, "strict": strict, "merged": merged, "norm_strip": _const_str(_one(r0.args, "rstrip arg"))}
 
 
+def read_accumulation() -> Dict[str, Any]:
+    """Both front-ends accumulate over SEVERAL input files: compile_requirements unions the three sets file after
+    file and hands all of them to build_repo; compile_main extends one token list with every file's parameters."""
+    cr = T.func(T.parse("private/compiler.py"), "compile_requirements")
+    loops = [n for n in cr.body if isinstance(n, ast.For) and isinstance(n.iter, ast.Call) and isinstance(n.iter.func, ast.Attribute)
+             and n.iter.func.attr == "items" and _is_name(n.iter.func.value, "requirements_ins")]
+    loop = _one(loops, "loop over requirements_ins.items() in compile_requirements")
+    want_src = (
+        "for name, input_file in requirements_ins.items():\n"
+        "    container = RequirementsFile.from_file(input_file)\n"
+        "    container.name = name\n"
+        "    input_reqs.append(container)\n"
+        "    new_urls, new_extras, new_links = parse_index_urls(input_file.read_text(encoding='utf-8'))\n"
+        "    index_urls = index_urls.union(new_urls)\n"
+        "    extra_index_urls = extra_index_urls.union(new_extras)\n"
+        "    find_links.update({os.path.normpath(input_file.parent / link): solution.parent for link in new_links})\n")
+    if ast.dump(ast.parse(want_src).body[0]) != ast.dump(loop):
+        raise TranslateError("the loop over requirements_ins in compile_requirements does not read each file and accumulate "
+                             "index_urls / extra_index_urls (union) and find_links (update) in the recognised shape")
+    inits = {}
+    for st in cr.body:
+        if isinstance(st, ast.AnnAssign) and isinstance(st.target, ast.Name) and st.target.id in ("index_urls", "extra_index_urls", "find_links"):
+            inits[st.target.id] = ast.dump(st.value) if st.value is not None else None
+    if inits != {"index_urls": ast.dump(ast.parse("set()").body[0].value), "extra_index_urls": ast.dump(ast.parse("set()").body[0].value),
+                 "find_links": ast.dump(ast.parse("{}").body[0].value)}:
+        raise TranslateError("index_urls / extra_index_urls / find_links of compile_requirements do not start empty before the loop")
+    calls = [n for n in ast.walk(cr) if isinstance(n, ast.Call) and _is_name(n.func, "build_repo")]
+    br = _one(calls, "build_repo call in compile_requirements")
+    want_kw = {
+        "find_links": "dict(sorted(find_links.items()))",
+        "index_urls": "sorted(index_urls | (extra_index_urls if promote_extra_index_urls else set()))",
+        "extra_index_urls": "[] if promote_extra_index_urls else sorted(extra_index_urls)",
+        "no_index": "no_index",
+    }
+    for k, src in want_kw.items():
+        v = _kw(br, k)
+        if v is None or ast.dump(v) != ast.dump(ast.parse(src).body[0].value):
+            raise TranslateError(f"build_repo({k}=...) in compile_requirements is not `{src}`")
+    # command line: every file's parameters are appended to the one list that is re-parsed
+    cm = T.func(T.parse("req_compile/cmdline.py"), "compile_main")
+    want_loop = ast.dump(ast.parse(
+        "for req in list(input_reqs):\n"
+        "    if isinstance(req, RequirementsFile):\n"
+        "        if req.parameters:\n"
+        "            extra_parameters.extend(req.parameters)\n").body[0])
+    if not any(isinstance(n, ast.For) and ast.dump(n) == want_loop for n in ast.walk(cm)):
+        raise TranslateError("compile_main does not extend extra_parameters with the parameters of every RequirementsFile input")
+    want_read = ast.dump(ast.parse("input_reqs = [_create_input_reqs(input_arg, extra_parameters) for input_arg in input_args]").body[0])
+    if not any(isinstance(n, ast.Assign) and ast.dump(n) == want_read for n in ast.walk(cm)):
+        raise TranslateError("compile_main does not read every input argument in order with _create_input_reqs")
+    return {"accumulates": True}
+
+
+def _closed(what: str, fn):
+    """fail closed: whatever goes wrong while reading an unexpected shape is a TranslateError, never a bare
+    IndexError / AttributeError / KeyError / TypeError"""
+    try:
+        return fn()
+    except TranslateError:
+        raise
+    except Exception as ex:  # noqa
+        raise TranslateError(f"{what}: unrecognised shape of the source ({type(ex).__name__}: {ex})")
+
+
 def gen_consts() -> str:
-    rq, bz, cl = read_req_iter(), read_bazel(), read_cli()
+    rq = _closed("req_compile/utils.py req_iter_from_lines", read_req_iter)
+    bz = _closed("private/compiler.py parse_index_urls", read_bazel)
+    cl = _closed("req_compile/cmdline.py add_repo_args/compile_main", read_cli)
+    _closed("compile_requirements / compile_main over several input files", read_accumulation)
     L = T.coq_list
     out = "(* GENERATED by harness/tr_c16.py from /repo on every run -- do not edit *)\n"
     out += "From Coq Require Import List String Ascii Bool.\nImport ListNotations.\nOpen Scope string_scope.\n"
@@ -479,6 +546,7 @@ def gen_consts() -> str:
     out += f"Definition c16_bzl_comment : ascii := ascii_of_nat {ord(bz['comment'])}.\n"
     out += f"Definition c16_bzl_strip : string := {_cstr(bz['strip'])}.\n"
     out += "Definition c16_bzl_strip_line : bool := true.   (* the loop starts with `line = line.strip()` *)\n"
+    out += "Definition c16_files_accumulate : bool := true.   (* both front-ends accumulate over all input files, in order *)\n"
     out += "(* " + ", ".join(bz["order"]) + " *)\n"
     out += "(* req_compile/cmdline.py add_repo_args + -e: (option strings, dest, 0 append | 1 store | 2 store_true, normalised) *)\n"
     out += "Definition c16_cli_options : list (list string * string * nat * bool) := " + L(
